@@ -667,11 +667,16 @@ def _cls_src(kind: str, name: str, extra: int, indent: str = "") -> tuple[str, s
     return "\n".join(indent + ln for ln in src.splitlines()), val
 
 
+IDENTITY_TEMPLATES = ["same-qualname", "same-qualname", "clean-id", "functional-local", "bogus-module", "rebound",
+                      "mappingproxy", "defaultdict-local", "shadow-class", "shadow-class", "shadow-module",
+                      "control-local", "control-local", "control-unicode-local", "control-unicode-local", "control-unicode-local", "control-unicode-local",
+                      "make-dataclass-local", "generic-serializable-local"]
+# every template is instantiated at least once per run: schema idx < len(..) takes the idx-th distinct template, the rest are drawn
+IDENTITY_TEMPLATES_DISTINCT = list(dict.fromkeys(IDENTITY_TEMPLATES))
+
+
 def gen_identity_schema(rng: random.Random, idx: int, template: str | None = None) -> dict:
-    t = template or rng.choice(["same-qualname", "same-qualname", "clean-id", "functional-local", "bogus-module", "rebound",
-                                "mappingproxy", "defaultdict-local", "shadow-class", "shadow-class", "shadow-module",
-                                "control-local", "control-local", "control-unicode-local", "control-unicode-local",
-                                "make-dataclass-local", "generic-serializable-local"])
+    t = template or rng.choice(IDENTITY_TEMPLATES)
     module = f"c17i_{idx}"
     kind = rng.choice(["dc-mixin", "dc-plain", "enum", "intenum", "namedtuple", "pathlike"])
     pt, pv = rng.choice(POSITIONS)
@@ -864,7 +869,7 @@ def gen_identity_schema(rng: random.Random, idx: int, template: str | None = Non
         L.append(f"CLASSES.extend([{', '.join(names)}])")
     if t == "generic-serializable-local":
         L.append("ROUNDTRIP.append(H)")
-    if not codec:
+    if not codec or t == "control-unicode-local":
         L += ident
     src = PRELUDE + "\n".join(L) + "\n"
     return {"src": src, "module": module, "tags": sorted(tags), "defloc": "identity:" + t, "idx": idx, "template": t}
